@@ -507,6 +507,96 @@ fn classify(d: Option<Duration>, pace_ms: u64, trials: &mut dyn FnMut() -> Optio
     }
 }
 
+/// What one message of a multi-message run on ONE bus object looked like at the port.
+pub struct MultiObs {
+    pub evs: Vec<String>,
+    pub res: String,
+    /// end of this message's last write → start of the next message's first write
+    pub gap_to_next_write: Option<Duration>,
+    /// end of this message's last read → return of process_message
+    pub d_recv: Option<Duration>,
+    pub wrote_ok: bool,
+}
+
+/// Several `process_message` calls on the same `SerialSignBus` (state kept by the bus object between
+/// exchanges — buffers, flags, timestamps — shows here and nowhere else).
+pub fn serial_multi_once(msgs: &[Message<'static>], rd: VecDeque<REv>, wr: VecDeque<WEv>) -> Option<(Vec<MultiObs>, String)> {
+    let port = MockPort::new(rd, wr, weird_settings(), FailAt::Never);
+    let mut bus = SerialSignBus::try_new(port).ok()?;
+    let mut obs: Vec<MultiObs> = vec![];
+    let mut first_write_start: Vec<Option<Instant>> = vec![];
+    let mut last_write_end: Vec<Option<Instant>> = vec![];
+    for m in msgs {
+        let (w0, r0, d0) = {
+            let p = bus.port();
+            (p.wr.times.len(), p.rd.times.len(), p.wr.delivered.len())
+        };
+        let r = bus.process_message(m.clone());
+        let t_ret = Instant::now();
+        let p = bus.port();
+        let mut evs = vec![];
+        let wrote = p.wr.times.len() > w0;
+        let read = p.rd.times.len() > r0;
+        let wrote_ok = wrote && !(matches!(&r, Err(_)) && !read);
+        if wrote {
+            evs.push(format!("W:{}:{}", to_hex(&p.wr.delivered[d0..]), if wrote_ok { 1 } else { 0 }));
+        }
+        if read {
+            evs.push("R".to_string());
+        }
+        first_write_start.push(if wrote { Some(p.wr.times[w0].0) } else { None });
+        last_write_end.push(if wrote { Some(p.wr.times[p.wr.times.len() - 1].1) } else { None });
+        let d_recv = if read { Some(t_ret.duration_since(p.rd.times[p.rd.times.len() - 1].1)) } else { None };
+        obs.push(MultiObs {
+            evs,
+            res: match &r {
+                Ok(None) => "ok none".to_string(),
+                Ok(Some(m)) => format!("ok {}", show_msg(m)),
+                Err(_) => "err".to_string(),
+            },
+            gap_to_next_write: None,
+            d_recv,
+            wrote_ok,
+        });
+    }
+    for k in 0..obs.len() {
+        if k + 1 < obs.len() {
+            if let (Some(e), Some(s)) = (last_write_end[k], first_write_start[k + 1]) {
+                obs[k].gap_to_next_write = Some(s.duration_since(e));
+            }
+        }
+    }
+    let rest = to_hex(&bus.port().rd.rest());
+    Some((obs, rest))
+}
+
+pub fn serial_multi_case(timed: bool, msgs: &[Message<'static>], rd: VecDeque<REv>, wr: VecDeque<WEv>) -> Option<String> {
+    let (obs, rest) = serial_multi_once(msgs, rd.clone(), wr.clone())?;
+    let mut parts = vec![];
+    for (k, o) in obs.iter().enumerate() {
+        let mut toks: Vec<String> = vec![];
+        for t in &o.evs {
+            toks.push(t.clone());
+            // the write-to-next-write gap is classified for data chunks only: for other messages it legitimately
+            // contains the reply and its 100 ms (their own pacing is measured by the single-exchange cases)
+            if timed && t.starts_with("W:") && o.wrote_ok && matches!(msgs[k], Message::SendData(..)) {
+                let g = classify(o.gap_to_next_write, 30, &mut || serial_multi_once(msgs, rd.clone(), wr.clone()).and_then(|x| x.0[k].gap_to_next_write));
+                if !g.is_empty() {
+                    toks.push(g.replacen('S', "G", 1));
+                }
+            }
+            if timed && t == "R" && o.res.starts_with("ok ") {
+                let s = classify(o.d_recv, 100, &mut || serial_multi_once(msgs, rd.clone(), wr.clone()).and_then(|x| x.0[k].d_recv));
+                if !s.is_empty() {
+                    toks.push(s);
+                }
+            }
+        }
+        parts.push(format!("{} => {}", toks.join(" "), o.res));
+    }
+    Some(format!("{} rest={}", parts.join(" ; "), rest))
+}
+
 pub fn serial_case(timed: bool, m: &Message<'static>, rd: VecDeque<REv>, wr: VecDeque<WEv>) -> Option<String> {
     let o = serial_once(m, rd.clone(), wr.clone())?;
     if !timed {
@@ -788,14 +878,20 @@ pub fn e2e_serial(signs: &str, rest: &[&str]) -> Option<String> {
     let client = ClientSide { pipe: pipe.clone(), odk };
     let bus = Rc::new(RefCell::new(SerialSignBus::try_new(client).ok()?));
     let mut out: Vec<String> = vec![];
+    let mut ctrls: Vec<((u16, usize), Sign)> = vec![];
     for o in ops {
         let p: Vec<&str> = o.split(',').collect();
         let (op, a, t, items) = match p.as_slice() {
             [op, a, t, items] => (*op, parse_u16(a)?, *TYPES.get(t.parse::<usize>().ok()?)?, parse_items(items)?),
             _ => return None,
         };
-        let sign = Sign::new(bus.clone(), Address(a), t);
-        let r = guarded(|| run_op(&sign, op, t, &items));
+        // one controller object per (address, type) for the whole line
+        let ti = TYPES.iter().position(|x| *x == t)?;
+        if !ctrls.iter().any(|(k, _)| *k == (a, ti)) {
+            ctrls.push(((a, ti), Sign::new(bus.clone(), Address(a), t)));
+        }
+        let sign = &ctrls.iter().find(|(k, _)| *k == (a, ti))?.1;
+        let r = guarded(|| run_op(sign, op, t, &items));
         out.push(match r {
             None => "PANIC".to_string(),
             Some(None) => return None,
